@@ -197,6 +197,9 @@ def run(ctx, chk):
     pm = PollerModel(fb, chk, 'C13.P4')
     if not pm.ok:
         return
+    # ---- P11: a poll outcome is decided and sent whatever the log level: nothing evaluated as an argument of a log macro
+    # in the poller's code can panic (the outcome would never be sent) or does part of the work
+    common.log_hazard_obligations(fb, chk, 'C13.P11', [pm.body], 'the chrony polling thread')
     rows = {}
     for info in pm.infos:
         if info['query'] is None:
